@@ -42,6 +42,7 @@ fn reader(path: &str) -> Result<Vec<u8>, Box<dyn std::error::Error + Send + Sync
         Entry::Absent => Err("No such file or directory (virtual)".into()),
         Entry::Valid(k) => Ok(valid_file(k)),
         Entry::Garbage => Ok(b"this is not a TZif file".to_vec()),
+        Entry::Empty => Ok(Vec::new()),
     }
 }
 
@@ -204,7 +205,7 @@ fn check_config(l: &mut Local, value: &str, dirs: &[&str], assignment: &[(String
 pub fn run(ctx: &Ctx) -> Report {
     let mut rep = Report::new("C20");
     rep.rule = "cases = (TZ value, directory list, virtual file system) configurations resolved through TimeZoneSettings::new(dirs, recording reader).parse_posix_tz(value); the real file system is not involved. Enumerated completely: 44 TZ-value shapes (empty, localtime, :x, :/abs, /abs, relative names, names that are also valid descriptions, descriptions with surrounding whitespace, ':' alone, non-ASCII, ...) \
-                x 9 directory lists (0..3 directories, permutations, duplicates, relative) x every assignment of {absent, valid TZif, garbage} to each candidate path. Oracle: M-resolve (tzset(3) order), compared on the exact sequence of reader arguments and on the result class; valid files carry distinct offsets so the zone returned identifies the file used. distinct_nontrivial = configurations (distinct by construction)."
+                x 9 directory lists (0..3 directories, permutations, duplicates, relative) x every assignment of {absent, valid TZif, garbage, readable but empty} to each candidate path. Oracle: M-resolve (tzset(3) order), compared on the exact sequence of reader arguments and on the result class; valid files carry distinct offsets so the zone returned identifies the file used. distinct_nontrivial = configurations (distinct by construction)."
         .into();
     rep.required_classes = vec![
         "zone_from_file",
@@ -232,20 +233,21 @@ pub fn run(ctx: &Ctx) -> Report {
         let cands = candidates(value, dirs);
         let k = cands.len();
         let mut n = 0u64;
-        // all assignments of {absent, valid, garbage} to the candidate paths
-        let combos = 3u64.pow(k as u32);
+        // all assignments of {absent, valid, garbage, empty} to the candidate paths
+        let combos = 4u64.pow(k as u32);
         for c in 0..combos {
             let mut c2 = c;
             let assignment: Vec<(String, Entry)> = cands
                 .iter()
                 .enumerate()
                 .map(|(j, p)| {
-                    let e = match c2 % 3 {
+                    let e = match c2 % 4 {
                         0 => Entry::Absent,
                         1 => Entry::Valid(60 * (j as i32 + 1)),
-                        _ => Entry::Garbage,
+                        2 => Entry::Garbage,
+                        _ => Entry::Empty,
                     };
-                    c2 /= 3;
+                    c2 /= 4;
                     (p.clone(), e)
                 })
                 .collect();
